@@ -437,6 +437,7 @@ def _nontrivial(case):
     return True
 
 
+GROUP_MAX = 60     # cases per configuration sent through generate_events together
 TIERS = {
     "quick": {
         "mc": {},
@@ -444,17 +445,17 @@ TIERS = {
         "sims": [("doc", 2000), ("row", 800), ("fit", 400)],
     },
     "thorough": {
-        "mc": {"Periods": "<- PeriodsAll", "StartOffs": "<- OffsAll", "KSet": "<- KAll", "Zones": "<- ZonesTwo",
-               "MaxLens": "<- MaxLensAll", "BPs": "<- BPsAll", "Energies": "<- EnergiesSmall",
+        "mc": {"Periods": "<- PeriodsAll", "StartOffs": "<- OffsAll", "KSet": "<- KMid", "MaxLens": "<- MaxLensAll",
+               "BPs": "<- BPsAll",
                "RowPeriods": "<- RowPeriodsAll", "RowK": "<- RowKAll", "RowKD": "<- RowKDAll", "RowMaxLens": "<- RowMaxLensAll",
-               "RowDays": "<- RowDaysAll", "RowEnergies": "<- RowEnergiesAll", "RowPowers": "<- RowPowersAll",
+               "RowPowers": "<- RowPowersAll",
                "FitVolts": "<- FitVoltsAll", "FitPeriods": "<- FitPeriodsAll", "FitStays": "<- FitStaysAll",
                "FitEnergies": "<- FitEnergiesAll", "FitFracs": "<- FitFracsAll"},
-        "gen": {"Periods": "<- PeriodsAll", "KSet": "<- KAll", "MaxLens": "<- MaxLensAll", "BPs": "<- BPsAll",
+        "gen": {"Periods": "<- PeriodsAll", "KSet": "<- KMid", "MaxLens": "<- MaxLensAll", "BPs": "<- BPsAll",
                 "RowPeriods": "<- RowPeriodsAll", "RowK": "<- RowKAll", "RowMaxLens": "<- RowMaxLensAll",
                 "FitVolts": "<- FitVoltsAll", "FitPeriods": "<- FitPeriodsAll", "FitStays": "<- FitStaysAll",
                 "FitEnergies": "<- FitEnergiesAll", "FitFracs": "<- FitFracsAll"},
-        "sims": [("doc", 40000), ("doc", 40000), ("row", 40000), ("fit", 3000)],
+        "sims": [("doc", 30000), ("doc", 30000), ("row", 12000), ("fit", 3000)],
     },
 }
 WIDE = {"Bases": "<- BasesAll", "StartOffs": "<- OffsAll", "Periods": "<- PeriodsAll", "Zones": "<- ZonesAll",
@@ -501,53 +502,11 @@ def check_C15(tier, seed):
                      "depth 4 (cfg -> Pick -> Eval -> Finish) of the model-checking run and by one emitted line per Finish "
                      "in the generation runs (action_coverage below is derived from the emissions)")
 
-    # (B) spec -> code
-    cases, seen = [], set()
+    # (B) spec -> code.  Cases are executed as TLC emits them; per configuration up to GROUP_MAX cases are kept
+    # to be sent through the public entry point (generate_events) together.
+    seen, obs, groups, by_kind, samples = set(), [], {}, {}, {}
 
-    def collect(tag, obj):
-        k = jhash(obj)
-        if k not in seen:
-            seen.add(k)
-            cases.append(obj)
-
-    gen = run_tlc("MC_EventGen", "EventGen_gen", workers=1, overrides=T["gen"], on_emit=collect, timeout=1500)
-    require_ok(gen, "EventGen generation")
-    n_ex = len(cases)
-    gen.coverage = {"Pick": n_ex, "Eval": n_ex, "Finish": n_ex}     # one emitted line per Finish
-    rep.add_tlc(gen, "exhaustive case generation", "EventGen_gen", require_actions=["Pick", "Eval", "Finish"])
-    import threading
-    errs, stats = [], []
-    lock = threading.Lock()
-
-    def lock_collect(tag, o):
-        with lock:
-            collect(tag, o)
-
-    def one(kind, n, j):
-        try:
-            ov = dict(WIDE)
-            ov["Kinds"] = '= {"%s"}' % kind
-            r = run_tlc("MC_EventGen", "EventGen_gen", workers=1, overrides=ov, simulate=n, depth=4,
-                        seed=seed * 100 + j, on_emit=lock_collect, timeout=1500)
-            require_ok(r, "EventGen wide simulation (%s)" % kind)
-            stats.append((kind, r))
-        except Exception as e:  # noqa
-            errs.append(e)
-
-    ths = [threading.Thread(target=one, args=(kind, n, j)) for j, (kind, n) in enumerate(T["sims"])]
-    [t.start() for t in ths]
-    [t.join() for t in ths]
-    if errs:
-        raise errs[0]
-    for kind, r in sorted(stats, key=lambda kr: kr[0]):
-        rep.add_tlc(r, "sampled %s cases of the wide lattice (-simulate)" % kind, "EventGen_gen wide Kinds={%s}" % kind)
-    wide = cases[n_ex:]
-    wide.sort(key=jhash)
-    cases[n_ex:] = wide
-
-    obs, groups = [], {}
-    by_kind = {}
-    for x in cases:
+    def handle(x):
         kind = x["cfg"]["kind"]
         by_kind[kind] = by_kind.get(kind, 0) + 1
         if kind == "fit":
@@ -558,22 +517,75 @@ def check_C15(tier, seed):
                 obs.append(ob)
         else:
             d = replay_case_raw(x)
-            groups.setdefault(jhash(x["cfg"]), (x["cfg"], []))[1].append(x)
+            g = groups.setdefault(jhash(x["cfg"]), (x["cfg"], []))[1]
+            if len(g) < GROUP_MAX:
+                g.append(x)
         rep.replayed += 1
         if d == "non-decisive":
             rep.non_decisive += 1
-            continue
-        rep.count(jhash(x), _nontrivial(x))
+            return
+        nt = _nontrivial(x)
+        rep.count(jhash(x), nt)
+        if nt and kind not in samples:
+            samples[kind] = x
         if d is not None:
             rep.violation(_key(kind, d), json.dumps(d, default=repr)[:500],
                           {"kind": "case", "module": "props_eventgen", "case": x, "mismatch": d})
-    # the public entry points (generate_events) on all cases of one configuration together
-    n_groups = 0
+
+    def stream(tag, obj):
+        k = jhash(obj)
+        if k not in seen:
+            seen.add(k)
+            handle(obj)
+
+    gen = run_tlc("MC_EventGen", "EventGen_gen", workers=1, overrides=T["gen"], on_emit=stream, timeout=1500)
+    require_ok(gen, "EventGen generation")
+    n_ex = len(seen)
+    gen.coverage = {"Pick": n_ex, "Eval": n_ex, "Finish": n_ex}     # one emitted line per Finish
+    rep.add_tlc(gen, "exhaustive case generation", "EventGen_gen", require_actions=["Pick", "Eval", "Finish"])
+    import threading
+    errs, stats, wide = [], [], []
+    lock = threading.Lock()
+
+    def buffer(tag, o):
+        k = jhash(o)
+        with lock:
+            if k not in seen:
+                seen.add(k)
+                wide.append((k, o))
+
+    def one(kind, n, j):
+        try:
+            ov = dict(WIDE)
+            ov["Kinds"] = '= {"%s"}' % kind
+            r = run_tlc("MC_EventGen", "EventGen_gen", workers=1, overrides=ov, simulate=n, depth=4,
+                        seed=seed * 100 + j, on_emit=buffer, timeout=1500)
+            require_ok(r, "EventGen wide simulation (%s)" % kind)
+            stats.append((j, kind, r))
+        except Exception as e:  # noqa
+            errs.append(e)
+
+    ths = [threading.Thread(target=one, args=(kind, n, j)) for j, (kind, n) in enumerate(T["sims"])]
+    [t.start() for t in ths]
+    [t.join() for t in ths]
+    if errs:
+        raise errs[0]
+    for j, kind, r in sorted(stats, key=lambda kr: kr[0]):
+        rep.add_tlc(r, "sampled %s cases of the wide lattice (-simulate num=%d)" % (kind, T["sims"][j][1]),
+                    "EventGen_gen wide Kinds={%s}" % kind)
+    wide.sort(key=lambda ko: ko[0])         # deterministic order whatever the thread timing
+    for k, o in wide:
+        handle(o)
+    n_wide = len(wide)
+    del wide
+    # the public entry points (generate_events) on the cases of one configuration together
+    n_groups = n_grouped = 0
     for cfg, xs in groups.values():
         fn = replay_doc_group if cfg["kind"] == "doc" else replay_row_group
         d, n = fn(cfg, xs)
         if n:
             n_groups += 1
+            n_grouped += n
         if d is not None:
             bad = d.pop("case")
             g = dict(cfg)
@@ -612,13 +624,11 @@ def check_C15(tier, seed):
                               {"kind": "case", "module": "props_eventgen", "case": v, "mismatch": d, "fit_case": src["case"]})
     rep.exhaustive = True
     rep.notes.append("%d cases of the exhaustive configuration + %d distinct sampled cases of the wide lattice: %s; "
-                     "%d configurations also through generate_events; %d fit observations judged by TLC"
-                     % (n_ex, len(cases) - n_ex, by_kind, n_groups, n_obs))
+                     "%d configurations (%d sessions) also through generate_events; %d fit observations judged by TLC"
+                     % (n_ex, n_wide, by_kind, n_groups, n_grouped, n_obs))
     for kind in ("doc", "row", "fit"):
-        for x in cases:
-            if x["cfg"]["kind"] == kind and _nontrivial(x):
-                rep.sample(x)
-                break
+        if kind in samples:
+            rep.sample(samples[kind])
     return rep.finish()
 
 
